@@ -989,6 +989,33 @@ fn step_c08(m: &EngModel, w: &mut World, s: &EngSt, a: &Act, out: &mut StepOut) 
                 );
             }
         }
+        // natural failure that must propagate: an insurance-fund withdrawal the fund cannot cover. The amount the
+        // operation needs from the fund is read off the rich-fund twin of the same pre-state (the fund topped up
+        // from a wallet that never trades); if that exceeds what the fund really holds, the real run must fail.
+        let if_bal = so.pre.balances.get(w.ifund.as_str()).copied().unwrap_or(0);
+        if if_bal < 100 * D && !m.traders.iter().any(|t| *t == "stranger") {
+            w.restore(&s.snap);
+            let moved = w.top_up_ifund();
+            if moved > 0 {
+                let o2 = apply(w, a);
+                out.executions += 1;
+                let ifa = w.ifund.to_string();
+                let eng = w.engine.to_string();
+                let needed: u128 = crate::obs::transfers(w, false).iter().filter(|x| x.from == ifa && x.to == eng).map(|x| x.amt).sum();
+                if o2.ok && needed > 0 {
+                    out.tag("c08:rich-fund-twin-withdrew");
+                }
+                if o2.ok && needed > if_bal && !so.outcome.ok {
+                    out.tag("c08:insurance-shortfall-propagated");
+                }
+                if o2.ok && needed > if_bal && so.outcome.ok {
+                    out.viol(
+                        format!("C08:insurance-shortfall-not-propagated:{}", a.kind()),
+                        format!("{:?} returned Ok although it needs {} from the insurance fund (rich-fund twin) and the fund holds {}", a, needed, if_bal),
+                    );
+                }
+            }
+        }
         w.restore(&so.post_snap);
     }
     next(&so)
@@ -997,7 +1024,7 @@ fn step_c08(m: &EngModel, w: &mut World, s: &EngSt, a: &Act, out: &mut StepOut) 
 pub fn run_c08(tier: Tier) -> i32 {
     let mut run = Run::new("C08", tier.clone());
     run.rule = "pre-states: every state of a BFS to the depth bound; for every pre-state and every engine operation of the alphabet the fault-free run records n dispatched messages, then the operation is re-executed n times from the same pre-state with dispatch i forced to fail; natural failures (empty wallet, closed vAMM, paused engine, slippage limit) are alphabet actions; non-trivial = a fault-injected re-execution".into();
-    run.nontrivial = vec!["c08:faulted-executions".into()];
+    run.nontrivial = vec!["c08:faulted-executions".into(), "c08:insurance-shortfall-propagated".into()];
     let mut al = StdAlpha::basic(&T2);
     al.sizes = vec![SIZE_M, SIZE_L];
     al.prices = vec![8 * D];
@@ -1032,6 +1059,12 @@ pub fn run_c08(tier: Tier) -> i32 {
         c.fluct = 50_000;
         c.imr = 100_000;
         exps.push(Exp { setup: None, name: "fault sweep partial close".into(), cfg: c, traders: T2.to_vec(), seeds: vec![vec![]], alpha: Alpha::Dyn(alpha_c15), depth: tier.pick(3, 4), init_mon: Value::Null });
+    }
+    // poor / empty insurance fund: withdrawals the fund cannot cover must fail the whole transaction
+    for (cw20, iff) in [(true, 0u128), (false, 50_000)] {
+        let mut c = cfg_liq(cw20, true, 250_000);
+        c.if_funds = iff;
+        exps.push(Exp::new("fault sweep poor fund", c, alpha.clone(), vec![seed_funded(), seed_funding_exceeds_margin(), seed_liquidatable()], tier.pick(2, 3)));
     }
     push_sweep(&mut exps, tier.pick(1, 2));
     run_exps(&mut run, step_c08, exps, |_| {});
